@@ -85,7 +85,7 @@ def check(ctx):
     ctx.ob("DOM.bind-order", pm, "variables are paired with matched subterms in pre-order", ok)
     # iter_matches filters None
     ys = [n for n in ast.walk(im) if isinstance(n, ast.Yield)]
-    ok = len(ys) == 1 and has_fact(inline_facts(im, ys[0]), "subs is None", False) is not None and unparse(ys[0].value) == "(rule, subs)"
+    ok = len(ys) == 1 and has_fact(inline_facts(im, ys[0]), "subs is None", False) is not None and eqv(ys[0].value, "(rule, subs)")
     ctx.ob("DOM.yield-valid-only", im, "only matches with a consistent substitution are yielded", ok)
     # ---------------- top level rewrite
     rw = mod.func("RuleSet._rewrite")
@@ -93,9 +93,9 @@ def check(ctx):
     ok = len(loops) == 1 and Pat("self.iter_matches(term)").match(loops[0].iter) is not None
     if ok:
         body = loops[0].body
-        ok = isinstance(body[-1], ast.Break) and bool(find("term = rule.subs(sd)", loops[0])) and unparse(loops[0].target) == "(rule, sd)"
+        ok = isinstance(body[-1], ast.Break) and bool(find("term = rule.subs(sd)", loops[0])) and eqv(loops[0].target, "(rule, sd)")
     rets = returns(rw)
-    ok = ok and len(rets) == 1 and unparse(rets[0].value) == "term" and len(find("term = M_v", rw, nested=False)) == 1
+    ok = ok and len(rets) == 1 and eqv(rets[0].value, "term") and len(find("term = M_v", rw, nested=False)) == 1
     ctx.ob("MPT.top-level", rw, "first match is applied (then break); no match -> term unchanged", ok)
     tl = mod.func("_top_level")
     ok = (all(Pat("net._rewrite(term)").match(r.value) is not None for r in returns(tl)) and bool(returns(tl)))
@@ -111,9 +111,9 @@ def check(ctx):
     ok = len(sets_t) == 1 and len(pop) == 1 and dominates(mt, pop[0][0], sets_t[0][0]) and getattr(pop[0][0], '_parent', None) is getattr(sets_t[0][0], '_parent', 0)
     ctx.ob("TYPESTATE.backtrack.set", mt, "restore_state_flag = True exactly when a saved state is popped", ok)
     var_take = find("matches = matches + (S.term,)", mt)
-    ok = len(sets_f) == 1 and len(var_take) == 1 and control_equivalent(mt, sets_f[0], var_take[0][0]) and any(unparse(n_.test) == "n" and sets_f[0] in n_.body and "N.edges.get(VAR, None)" in unparse(mt) for n_ in walk_no_nested(mt) if isinstance(n_, ast.If))
+    ok = len(sets_f) == 1 and len(var_take) == 1 and control_equivalent(mt, sets_f[0], var_take[0][0]) and any(eqv(n_.test, "n") and sets_f[0] in n_.body and "N.edges.get(VAR, None)" in unparse(mt) for n_ in walk_no_nested(mt) if isinstance(n_, ast.If))
     ctx.ob("TYPESTATE.backtrack.reset", mt, "the flag is cleared when (and only when) a VAR edge is taken", ok, "" if ok else "the flag is cleared elsewhere: after one backtrack constant edges keep being skipped (or are retried), so overlapping rules are missed")
-    const_take = [n_ for n_ in ast.walk(mt) if isinstance(n_, ast.If) and unparse(n_.test) == "n and (not restore_state_flag)"]
+    const_take = [n_ for n_ in ast.walk(mt) if isinstance(n_, ast.If) and eqv(n_.test, "n and (not restore_state_flag)")]
     ok = len(const_take) == 1 and bool(find("stack.append((S.copy(), N, matches))", const_take[0])) and not find("restore_state_flag = M_v", const_take[0])
     ctx.ob("TYPESTATE.backtrack.guard", mt, "a constant edge is taken only when not restoring; the state is saved first; the flag is untouched there", ok)
 
